@@ -18,7 +18,7 @@
    named like a function. *)
 From Verif Require Import Lib.Base Model.Resolver Proofs.Resolver Proofs.ResolverSound
   Proofs.ResolverExact Proofs.ResolverOrder Proofs.ResolverFlat Proofs.ResolverNoPanic
-  Proofs.ResolverTopo Proofs.ResolverMain Proofs.ResolverCutoff.
+  Proofs.ResolverTopo Proofs.ResolverBound Proofs.ResolverMain Proofs.ResolverCutoff.
 
 (* SOUND.  Whatever the map iteration order: if the resolver accepts, the types
    it returns satisfy every usage constraint, and every demand the compiler
@@ -59,6 +59,25 @@ Theorem C16_exact_partial : forall (pi : oracle) (P : program),
   ((exists F, resolve pi P = ROk F) <-> sat P).
 Proof. exact (main_exact cutoff). Qed.
 Print Assumptions C16_exact_partial.
+
+(* EXACT for programs with at most 50 distinct parameters and global variables
+   (ARGV, ENVIRON, FIELDS counted): there the cut-off provably cannot fire
+   (every pass that is followed by another one created a variable or
+   determined a type), so the statement is unguarded. *)
+Theorem C16_exact_small : forall (pi : oracle) (P : program),
+  perm_oracle pi -> wf0 P = true -> 2 * key_count P <= 100 ->
+  ((exists F, resolve pi P = ROk F) <-> sat P).
+Proof. exact (main_exact_small cutoff). Qed.
+Print Assumptions C16_exact_small.
+
+Theorem C16_order_independent_small : forall (pi pi' : oracle) (P P' : program),
+  perm_oracle pi -> perm_oracle pi' -> wf0 P = true -> reordered P P' ->
+  2 * key_count P <= 100 -> 2 * key_count P' <= 100 ->
+  ((exists F, resolve pi P = ROk F) <-> (exists F', resolve pi' P' = ROk F')) /\
+  (forall F F', resolve pi P = ROk F -> resolve pi' P' = ROk F' ->
+                forall k, rho_of (fin_types F') k = rho_of (fin_types F) k).
+Proof. exact (main_order_independent_small cutoff). Qed.
+Print Assumptions C16_order_independent_small.
 
 (* ORDER INDEPENDENT (partial: same guard).  Reordering the function definitions
    and the BEGIN/action/END events in any way, together with any change of
@@ -163,6 +182,9 @@ Proof.
   split; [apply wf_wf0; vm_compute; reflexivity|].
   destruct chain_100_accepted as [F HF]. rewrite HF. discriminate.
 Qed.
+
+Example C16_ex_small : 2 * key_count (chain_prog 40) <= 100 /\ key_count (chain_prog 101) = 105.
+Proof. split; vm_compute; [discriminate | reflexivity]. Qed.
 
 Example C16_ex_reordered : reordered (chain_prog 3)
   {| p_natives := []; p_funcs := rev (p_funcs (chain_prog 3)); p_main := p_main (chain_prog 3) |}.
